@@ -289,6 +289,8 @@ pub fn run(op: &str, t: &[&str], v: &[Val], out: &mut Out) -> bool {
                 out.named("be", || a.to_bytes_be());
                 out.named("tle", || ToBytes::to_le_bytes(a));
                 out.named("tbe", || ToBytes::to_be_bytes(a));
+                // provided method: native-endian = the little- or big-endian form depending on the target
+                out.named("tne", || Raw(format!("{}{}", if cfg!(target_endian = "little") { "L" } else { "B" }, ToBytes::to_ne_bytes(a).show())));
                 out.named("w32", || a.to_u32_digits());
                 out.named("w64", || a.to_u64_digits());
                 out.named("i32", || a.iter_u32_digits().collect::<Vec<u32>>());
@@ -303,6 +305,7 @@ pub fn run(op: &str, t: &[&str], v: &[Val], out: &mut Out) -> bool {
                 out.named("sbe", || a.to_signed_bytes_be());
                 out.named("tle", || ToBytes::to_le_bytes(a));
                 out.named("tbe", || ToBytes::to_be_bytes(a));
+                out.named("tne", || Raw(format!("{}{}", if cfg!(target_endian = "little") { "L" } else { "B" }, ToBytes::to_ne_bytes(a).show())));
                 out.named("w32", || a.to_u32_digits());
                 out.named("w64", || a.to_u64_digits());
                 out.named("i32", || a.iter_u32_digits().collect::<Vec<u32>>());
@@ -317,6 +320,7 @@ pub fn run(op: &str, t: &[&str], v: &[Val], out: &mut Out) -> bool {
                 out.named("be", || BigUint::from_bytes_be(&b));
                 out.named("tle", || <BigUint as FromBytes>::from_le_bytes(&b));
                 out.named("tbe", || <BigUint as FromBytes>::from_be_bytes(&b));
+                out.named("tne_is_le", || <BigUint as FromBytes>::from_ne_bytes(&b) == if cfg!(target_endian = "little") { BigUint::from_bytes_le(&b) } else { BigUint::from_bytes_be(&b) });
             } else {
                 let s = sign_of(t[1]);
                 out.named("le", || BigInt::from_bytes_le(s, &b));
@@ -329,6 +333,7 @@ pub fn run(op: &str, t: &[&str], v: &[Val], out: &mut Out) -> bool {
             out.named("sbe", || BigInt::from_signed_bytes_be(&b));
             out.named("tle", || <BigInt as FromBytes>::from_le_bytes(&b));
             out.named("tbe", || <BigInt as FromBytes>::from_be_bytes(&b));
+            out.named("tne_is_le", || <BigInt as FromBytes>::from_ne_bytes(&b) == if cfg!(target_endian = "little") { BigInt::from_signed_bytes_le(&b) } else { BigInt::from_signed_bytes_be(&b) });
         }
         // new <U|I+|I-|I0> w<words>
         "new" => {
